@@ -7,6 +7,7 @@ import (
 	"fmt"
 	"math"
 	"math/big"
+	"time"
 
 	cose "github.com/veraison/go-cose"
 
@@ -72,6 +73,10 @@ func goInt(v rc.Val) any {
 		return *big.NewInt(i)
 	case rc.SpBigIntPtr:
 		return big.NewInt(i)
+	case rc.SpTime:
+		if i > -(1<<40) && i < 1<<40 {
+			return time.Unix(i, 0).UTC()
+		}
 	}
 	return i
 }
